@@ -196,6 +196,15 @@ def block (st : State) (i : Nat) : Option State :=
           if !st.connected then some (settle (complete st i .byDisconnectedError))
           else none
 
+/-- `dbus_connection_dispatch` during which a filter, handed the message, waits for call `i` (`dbus_pending_call_block` issued from
+    inside the dispatch): a message that answers a registered call never reaches the filters, so nothing is waited for then -/
+def dispatchBlock (st : State) (i : Nat) : State × Bool :=
+  match st.incoming with
+  | [] => (dispatch st, false)
+  | m :: _ =>
+    if m.rs != 0 && (findBySerial st.calls m.rs).isSome then (dispatch st, false)
+    else ((block (dispatch st) i).getD (dispatch st), true)
+
 /-- the events of a history -/
 inductive Ev
   | send (finite notify : Bool)
@@ -208,6 +217,7 @@ inductive Ev
   | fire (i : Nat)
   | cancel (i : Nat)
   | block (i : Nat)
+  | dispatchBlock (i : Nat)
   | closePeer
 
 def step (st : State) : Ev → State
@@ -221,6 +231,7 @@ def step (st : State) : Ev → State
   | .fire i => (fire st i).1
   | .cancel i => cancel st i
   | .block i => (block st i).getD st
+  | .dispatchBlock i => (dispatchBlock st i).1
   | .closePeer => { st with peerClosed := true }
 
 def run (h : List Ev) : State := h.foldl step {}
